@@ -200,6 +200,35 @@ func CoordPatternReps() []Rep {
 	return out
 }
 
+// ConstMulBoundaryReps returns representations of G and H whose stored Z limbs sit at the carry boundaries of a
+// multiplication by one of the small curve constants (3b = 21, b = 7, 3, 2): floor(k * 2^256 / c) + {-2^20, -1, 0, 1}
+// for k = 1..c-1. A hand-optimised "multiply by 3b" that folds its carry wrongly only fails in narrow windows
+// around these values. In Add with a partner whose Z is 1 the product Z1*Z2, which is what gets multiplied by 3b,
+// has exactly these stored limbs.
+func ConstMulBoundaryReps() []Rep {
+	var out []Rep
+
+	g, h := ref.G(), HPoint()
+
+	for _, c := range []int64{21, 7, 3, 2} {
+		for k := int64(1); k < c; k++ {
+			base := new(big.Int).Div(new(big.Int).Mul(big.NewInt(k), ref.Two256()), big.NewInt(c))
+
+			for _, d := range []int64{-(1 << 20), -1, 0, 1} {
+				pat := new(big.Int).Add(base, big.NewInt(d))
+				if pat.Sign() <= 0 || pat.Cmp(ref.P) >= 0 {
+					continue
+				}
+
+				l := ref.Unmont(ref.Limbs(pat), ref.P)
+				out = append(out, Rep{g, l}, Rep{h, l})
+			}
+		}
+	}
+
+	return out
+}
+
 // IdxRep is a representation together with the index of its point in Points().
 type IdxRep struct {
 	Rep
